@@ -27,6 +27,7 @@ fn base(name: &str, clients: usize) -> EvCell {
             hold_mutations: true,
             hold_acks: true,
             update_latency: 0,
+            update_batch: 0,
         },
         oracles: EvOracles { c05: true, convergence: true, c09: true, ..Default::default() },
         closure_rounds: 5,
